@@ -223,7 +223,84 @@ def _run(c):
         return {"res": res, "args": [snap(mk(c["s"], ints))], "args_same": orig_same and not shares,
                 "copy_independent": raw(cp2) == cp2_0, "aliased": aliased, "amounts": amounts, "before": before,
                 "same_class": type(cp) is type(s)}
+    if op == "prog":
+        return run_prog(c, ints, bases)
     raise ValueError(op)
+
+
+def probe(cur, bases, probe_calls, ints):
+    """Everything the property speaks about, asked of the CURRENT object."""
+    arg0 = raw(cur)
+    out = {"state": snap(cur), "calc": calc(cur, bases)}
+
+    def inv_():
+        inv = cur.inverse()
+        arr = numpy.array([float(b) for b in bases], dtype=float)
+        net = arr - cur.calc(arr)
+        return {"res": snap(inv), "amounts": [L.tofr(x) for x in inv.calc(net)], "aliased": inv is cur}
+
+    def avg_():
+        return snap(cur.to_average())
+
+    def am_():
+        m = cur.to_average().to_marginal()
+        return {"res": snap(m), "amounts": calc(m, bases)}
+
+    def comb_():
+        acc = mk(probe_calls, ints)
+        before = calc(acc, bases)
+        acc.add_tax_scale(cur)
+        return {"res": snap(acc), "amounts": calc(acc, bases), "acc_before": before}
+
+    out["inverse"] = guarded(inv_)
+    out["average"] = guarded(avg_)
+    out["avg_marg"] = guarded(am_)
+    out["combine"] = guarded(comb_)
+    out["unchanged"] = raw(cur) == arg0
+    return out
+
+
+def run_prog(c, ints, bases):
+    cur = mk(c["s"], ints)
+    stages = [probe(cur, bases, c["probe"], ints)]
+    steps = []
+    for st in c["steps"]:
+        kind = st[0]
+        old, old0 = cur, raw(cur)
+        at = []
+        if kind == "mul_thr":
+            f = fr(st[1])
+            ret = cur.multiply_thresholds(float(f), decimals=st[2], inplace=st[3])
+            at = [b * f for b in bases]
+        elif kind == "mul_rates":
+            ret = cur.multiply_rates(float(fr(st[1])), inplace=st[2])
+        elif kind == "copy":
+            ret = cur.copy()
+        elif kind == "scale_ts":
+            f = fr(st[1])
+            ret = cur.scale_tax_scales(float(f))
+            at = [b * f for b in bases]
+        elif kind == "add_bracket":
+            cur.add_bracket(num(st[1], ints), num(st[2], ints))
+            ret = cur
+        elif kind == "combine":
+            other = mk(st[1], ints)
+            other0, other_calc = raw(other), calc(other, bases)
+            cur.add_tax_scale(other)
+            ret = cur
+        else:
+            raise ValueError(kind)
+        info = {"old_after": snap(old), "aliased": ret is old, "old_same": raw(old) == old0,
+                "same_class": type(ret) is type(old), "amounts": calc(ret, at)}
+        if kind == "combine":
+            info["other_same"] = raw(other) == other0
+            info["other_calc"] = other_calc
+        if kind == "copy":
+            info["shares"] = ret.thresholds is old.thresholds or ret.rates is old.rates
+        cur = ret
+        steps.append(info)
+        stages.append(probe(cur, bases, c["probe"], ints))
+    return {"stages": stages, "steps": steps}
 
 
 # ---- Coq side ----------------------------------------------------------------------------------
@@ -255,6 +332,19 @@ def hints_of(c, o):
         return [o["res"][1]]
     if op == "avg_marg":
         return [o["res"][1], o["amounts"]]
+    if op == "prog":
+        h = []
+        for k, stg in enumerate(o["stages"]):
+            inv, avg, am, cb = stg["inverse"], stg["average"], stg["avg_marg"], stg["combine"]
+            h += [stg["calc"],
+                  [] if isinstance(inv, Err) else inv["res"][1],
+                  [] if isinstance(inv, Err) else inv["amounts"],
+                  [] if isinstance(am, Err) else am["res"][1],
+                  [] if isinstance(am, Err) else am["amounts"],
+                  [] if isinstance(cb, Err) else cb["amounts"],
+                  [] if isinstance(avg, Err) else avg[1],
+                  o["steps"][k]["amounts"] if k < len(o["steps"]) else []]
+        return h
     raise ValueError(op)
 
 
@@ -298,7 +388,27 @@ def coq_case(c):
         return f"(KAvgMarg {eps} {ccalls(c['s'])} {bases} {h})"
     if op == "copy":
         return f"(KCopy {eps} {ccalls(c['s'])} {bases} {h})"
+    if op == "prog":
+        return (f"(KProg {eps} {ccalls(c['s'])} {ccalls(c['probe'])} {clist([cstep(st) for st in c['steps']])} "
+                f"{bases} {h})")
     raise ValueError(op)
+
+
+def cstep(st):
+    kind = st[0]
+    if kind == "mul_thr":
+        return f"(SMulThr {cq(fr(st[1]))} {copt(st[2], cz)} {cbool(st[3])})"
+    if kind == "mul_rates":
+        return f"(SMulRates {cq(fr(st[1]))} {cbool(st[2])})"
+    if kind == "copy":
+        return "SCopy"
+    if kind == "scale_ts":
+        return f"(SScaleTS {cq(fr(st[1]))})"
+    if kind == "add_bracket":
+        return f"(SAddBracket {cq(fr(st[1]))} {cq(fr(st[2]))})"
+    if kind == "combine":
+        return f"(SCombine {ccalls(st[1])})"
+    raise ValueError(kind)
 
 
 def exact_flag(c):
@@ -333,6 +443,19 @@ def obs_for_coq(c, o):
         return o["res"]
     if op == "avg_marg":
         return [o["res"], o["args"][0], o["amounts"]]
+    if op == "prog":
+        out = []
+        for k, stg in enumerate(o["stages"]):
+            inv, avg, am, cb = stg["inverse"], stg["average"], stg["avg_marg"], stg["combine"]
+            out.append([stg["state"], stg["calc"],
+                        inv if isinstance(inv, Err) else [inv["res"], inv["amounts"]],
+                        avg,
+                        am if isinstance(am, Err) else [am["res"], am["amounts"]],
+                        cb if isinstance(cb, Err) else [cb["res"], cb["amounts"]]])
+            if k < len(o["steps"]):
+                sp = o["steps"][k]
+                out.append([sp["old_after"], bool(sp["aliased"]), sp["amounts"]])
+        return out
     raise ValueError(op)
 
 
@@ -426,6 +549,8 @@ def oracle(c, o):
                 return (f"average_marginal: base {b} is taxed {float(v0)!r} by the scale and {float(v1)!r} after "
                         f"to_average().to_marginal() = {o['res']} on {c}")
         return None
+    if op == "prog":
+        return oracle_prog(c, o, bases)
     if op == "copy":
         if o["aliased"] or not o["same_class"]:
             return f"copy: copy() returned {'the scale itself' if o['aliased'] else 'another class'} on {c}"
@@ -440,9 +565,136 @@ def oracle(c, o):
     raise ValueError(op)
 
 
+def strictly_increasing(state):
+    ths = state[0]
+    return all(a < b for a, b in zip(ths, ths[1:]))
+
+
+def oracle_prog(c, o, bases):
+    """Every law, after every step, on the object as it is then (its bracket lists are read
+    back from the object).  Two passes, so that a failure of the open finding F34 (inverse /
+    average-marginal / add_tax_scale on a scale with coinciding thresholds) never hides
+    another failure of the same case: pass 1 everything else, pass 2 those three laws on
+    states with coinciding thresholds."""
+    for f34 in (False, True):
+        msg = oracle_prog_pass(c, o, bases, f34)
+        if msg:
+            return msg
+    return None
+
+
+F34_TAG = "[coinciding thresholds]"
+
+
+def oracle_prog_pass(c, o, bases, f34):
+    stages, steps = o["stages"], o["steps"]
+    probe_br = brackets(c["probe"])
+    for k, stg in enumerate(stages):
+        where = f"after step {k} of {c['steps']}" if k else "before the first step"
+        st = stg["state"]
+        br = list(zip(*st)) if st[0] else []
+        strict = strictly_increasing(st)
+        nn = all(t >= 0 for t in st[0])
+        tag = "" if strict else " " + F34_TAG
+        if not f34:
+            if not stg["unchanged"]:
+                return f"argument_altered: asking calc/inverse/to_average/add_tax_scale(arg) altered the scale {where} on {c}"
+            # calc is the definition on the current bracket lists
+            for b, v in zip(bases, stg["calc"]):
+                e = L.def_marginal_rate(br, b)
+                if not close(e, v):
+                    return f"calc: base {b} is taxed {float(v)!r}, the brackets {st} give {float(e)!r} {where} on {c}"
+        if f34 != strict:              # pass 1: strictly increasing states; pass 2: the others
+            inv = stg["inverse"]
+            if br and br[0][0] == 0 and all(r < 1 for _, r in br):
+                if isinstance(inv, Err):
+                    return f"inverse: raised {inv.kind} ({inv.msg[:60]}) on the scale {st}{tag} {where} on {c}"
+                if inv["aliased"]:
+                    return f"argument_altered: inverse returned the scale itself {where} on {c}"
+                for g, a in zip(bases, inv["amounts"]):
+                    if g >= 0 and not close(g, a):
+                        return (f"inverse: the scale is {st}{tag} {where}; gross {g} has net {float(g - L.def_marginal_rate(br, g))!r}, "
+                                f"which inverse() = {inv['res']} maps to {float(a)!r} on {c}")
+            am = stg["avg_marg"]
+            if nn and br:
+                if isinstance(am, Err):
+                    return f"average_marginal: raised {am.kind} ({am.msg[:60]}) on the scale {st}{tag} {where} on {c}"
+                for b, v0, v1 in zip(bases, stg["calc"], am["amounts"]):
+                    if not close(v0, v1):
+                        return (f"average_marginal: the scale {st}{tag} taxes {b} at {float(v0)!r}, to_average().to_marginal() = "
+                                f"{am['res']} at {float(v1)!r} {where} on {c}")
+            cb = stg["combine"]
+            if nn:
+                if isinstance(cb, Err):
+                    return f"combine: raised {cb.kind} ({cb.msg[:60]}) adding the scale {st}{tag} {where} on {c}"
+                for b, v0, a0, v1 in zip(bases, stg["calc"], cb["acc_before"], cb["amounts"]):
+                    if not close(v0 + a0, v1):
+                        return (f"combine: {probe_br} + the scale {st}{tag} taxes {b} at {float(v1)!r}, the two scales at "
+                                f"{float(a0)!r} + {float(v0)!r} {where} on {c}")
+        if k == 0:
+            continue
+        # the law of the step that led here
+        step, sp, prev = c["steps"][k - 1], steps[k - 1], stages[k - 1]
+        kind = step[0]
+        if kind == "combine":
+            pstrict = strictly_increasing(prev["state"])
+            if f34 != pstrict and nonneg(step[1]) and all(t >= 0 for t in prev["state"][0]):
+                ptag = "" if pstrict else " " + F34_TAG
+                for b, v0, v2, v1 in zip(bases, prev["calc"], sp["other_calc"], stg["calc"]):
+                    if not close(v0 + v2, v1):
+                        return (f"combine: {prev['state']}{ptag} + {brackets(step[1])} taxes {b} at {float(v1)!r}, the two scales at "
+                                f"{float(v0)!r} + {float(v2)!r} on {c}")
+        if f34:
+            continue
+        inplace = (kind in ("add_bracket", "combine") or (kind == "mul_thr" and step[3])
+                   or (kind == "mul_rates" and step[2]))
+        if sp["aliased"] != inplace:
+            return f"argument_altered: step {step} returned {'self' if sp['aliased'] else 'another object'} on {c}"
+        if not sp["same_class"]:
+            return f"scale: step {step} returned another class on {c}"
+        if not inplace and (not sp["old_same"] or sp["old_after"] != prev["state"]):
+            return f"argument_altered: step {step} (not in place) changed the scale it was applied to: {sp['old_after']} on {c}"
+        if kind == "mul_rates":
+            f = fr(step[1])
+            for b, v0, v1 in zip(bases, prev["calc"], stg["calc"]):
+                if not close(f * v0, v1):
+                    return (f"scale_rates: {prev['state']} taxed {b} at {float(v0)!r}; after multiply_rates({f}, inplace={step[2]}) "
+                            f"the scale is {st} and taxes it at {float(v1)!r} on {c}")
+        elif kind in ("mul_thr", "scale_ts"):
+            f = fr(step[1])
+            if (kind == "scale_ts" or step[2] is None) and f >= 0 and all(t >= 0 for t in prev["state"][0]):
+                for b, v0, v1 in zip(bases, prev["calc"], sp["amounts"]):
+                    if not close(f * v0, v1):
+                        return (f"scale_thresholds: {prev['state']} taxed {b} at {float(v0)!r}; with thresholds times {f} the scale "
+                                f"{st} taxes {f * b} at {float(v1)!r} on {c}")
+        elif kind == "copy":
+            if sp["shares"] or st != prev["state"] or stg["calc"] != prev["calc"]:
+                return f"copy: the copy {st} of {prev['state']} shares lists or taxes differently on {c}"
+        elif kind == "combine":
+            if not sp["other_same"]:
+                return f"argument_altered: add_tax_scale altered its argument on {c}"
+    return None
+
+
+def known(c, o, msg):
+    """Open finding F34 (known_findings.json, signature coinciding-thresholds): the failing law
+    is add_tax_scale / inverse / average-marginal AND the scale it was evaluated on has two
+    equal thresholds (read back from the implementation's object)."""
+    if c.get("op") != "prog" or isinstance(o, Err):
+        return None
+    if msg.split(":")[0] not in ("combine", "inverse", "average_marginal") or F34_TAG not in msg:
+        return None
+    if any(not strictly_increasing(stg["state"]) and stg["state"][0] == sorted(stg["state"][0])
+           for stg in o["stages"]):
+        return "coinciding-thresholds"
+    return None
+
+
 def err_claim(c, o):
     """An exception where the property promises a value."""
     op = c["op"]
+    if op == "prog":
+        return f"prog: raised {o.kind} ({o.msg[:80]}) on {c}"
     if op in ("combine", "combine_seq", "combine_node", "copy", "scale_ts", "to_average"):
         scs = [c.get("s"), c.get("s1"), c.get("s2"), c.get("combined")] + list(c.get("others", [])) + list(c.get("node", []))
         if all(nonneg(s) for s in scs if s is not None):
@@ -490,6 +742,10 @@ def classify(c, o):
     elif op == "inverse":
         br = brackets(c["s"])
         tag += ":valid" if br and br[0][0] == 0 and all(r < 1 for _, r in br) else ":unclaimed"
+    elif op == "prog":
+        tag += ":" + ">".join(st[0] + ("!" if st[0] in ("mul_thr", "mul_rates") and st[-1] else "") for st in c["steps"])
+        if not isinstance(o, Err) and any(not strictly_increasing(stg["state"]) for stg in o["stages"]):
+            tag += ":coinciding"
     elif op in ("avg_marg", "to_average"):
         br = brackets(c["s"])
         tag += ":empty" if not br else ":t0=0" if br[0][0] == 0 else ":t0>0" if br[0][0] > 0 else ":t0<0"
@@ -701,24 +957,148 @@ def generate(rng, tier):
         if rng.random() < 0.05:
             s = gen_scale(rng, 4, nmin=0, neg=0.6)
         cases.append({"op": "avg_marg", "s": s, "ints": rng.random() < 0.3, "bases": bases_for(rng, [s])})
+    gen_programs(rng, cases, 320 * scale_n)
     for _ in range(100 * scale_n):
         s = gen_scale(rng, 6, nmin=0 if rng.random() < 0.1 else 1, neg=0.1, wild=0.1)
         cases.append({"op": "copy", "s": s, "ints": rng.random() < 0.3, "bases": bases_for(rng, [s])})
+    # the program cases are by far the largest terms: spread them over the shards
+    rng.shuffle(cases)
     return cases
+
+
+# ---- programs: one scale object, transformed step by step, probed after every step -----------------
+
+PROG_F = [F(2), F(1, 2), F(3, 2), F(3), F(1, 4), F(5, 4), F(1)]
+STEP_KINDS = ["mul_thr!", "mul_thr", "mul_rates!", "mul_rates", "copy", "scale_ts", "add_bracket", "combine"]
+
+
+def gen_step(rng, kind):
+    if kind.startswith("mul_thr"):
+        return ["mul_thr", enc(rng.choice(PROG_F)), None, kind.endswith("!")]
+    if kind.startswith("mul_rates"):
+        return ["mul_rates", enc(rng.choice([F(1, 2), F(1, 4), F(3, 2), F(2), F(3, 4), F(-1)])), kind.endswith("!")]
+    if kind == "copy":
+        return ["copy"]
+    if kind == "scale_ts":
+        return ["scale_ts", enc(rng.choice(PROG_F))]
+    if kind == "add_bracket":
+        return ["add_bracket", enc(F(rng.randrange(1, 400), 4)), enc(rng.choice(RATES))]
+    return ["combine", gen_scale(rng, 3)]
+
+
+def rounding_step(rng):
+    """multiply_thresholds with decimals 0 / -1: the way coinciding thresholds arise."""
+    d = rng.choice([0, 0, 0, -1])
+    f = rng.choice([F(1), F(1, 2), F(1, 4), F(1, 8)]) if d == 0 else rng.choice([F(1), F(1, 2), F(2)])
+    return ["mul_thr", enc(f), d, rng.random() < 0.6]
+
+
+def prog_thresholds(c):
+    """Thresholds of the current object after every step (Fractions; the rates are not needed):
+    used to keep programs inside what the model covers."""
+    ths = sorted(t for t, _ in brackets(c["s"]))
+    out = [list(ths)]
+    for st in c["steps"]:
+        if st[0] in ("mul_thr", "scale_ts"):
+            f = fr(st[1])
+            d = st[2] if st[0] == "mul_thr" else None
+            ths = [t * f if d is None else L.around(d, t * f) for t in ths]
+        elif st[0] == "add_bracket":
+            if fr(st[1]) not in ths:
+                ths = sorted(ths + [fr(st[1])])
+        elif st[0] == "combine":
+            ths = sorted(ths + [t for t in {fr(t) for t, _ in st[1]} if t not in ths])
+        out.append(list(ths))
+    return out
+
+
+def prog_ok(c):
+    """Every product is a binary64 number, thresholds stay in non-decreasing order, and 0 occurs
+    at most as the first threshold (a later zero threshold makes `i / threshold` depend on
+    whether the number is a Python or a numpy float)."""
+    for st, ths in zip([None] + c["steps"], prog_thresholds(c)):
+        if any(not L.representable(t) or abs(t) > 2**20 for t in ths):
+            return False
+        if any(t <= 0 for t in ths[1:]) or (ths and ths[0] < 0):
+            return False
+    return True
+
+
+def has_coinciding(c):
+    return any(len(set(ths)) < len(ths) for ths in prog_thresholds(c))
+
+
+def clustered_scale(rng):
+    """a scale some of whose thresholds are close enough to coincide after rounding"""
+    n = rng.randint(2, 4)
+    anchors = sorted(rng.sample(range(2, 120), n))
+    ths = set()
+    for a in anchors:
+        ths.add(F(a))
+        if rng.random() < 0.6:
+            ths.add(F(a) + rng.choice([F(1, 4), F(1, 2), F(1), F(3, 4), F(2), F(3)]))
+    if rng.random() < 0.8:
+        ths.add(F(0))
+    return as_calls(rng, sorted(ths)[:6], shuffle=0.1)
+
+
+def gen_programs(rng, cases, n):
+    made = 0
+    tries = 0
+    while made < n and tries < 40 * n:
+        tries += 1
+        kind = made % 4
+        if kind < 2:
+            # coinciding thresholds through rounding, then every transformation in turn
+            s = clustered_scale(rng)
+            steps = [rounding_step(rng), gen_step(rng, STEP_KINDS[(made // 4) % len(STEP_KINDS)])]
+            steps += [gen_step(rng, rng.choice(STEP_KINDS)) for _ in range(rng.randint(0, 2))]
+        elif kind == 2:
+            # strictly increasing thresholds throughout: every law is claimed after every step
+            s = as_calls(rng, gen_thresholds(rng, rng.randint(1, 5), zero=0.85), shuffle=0.1)
+            steps = [gen_step(rng, STEP_KINDS[(made // 4) % len(STEP_KINDS)])]
+            steps += [gen_step(rng, rng.choice(STEP_KINDS)) for _ in range(rng.randint(1, 3))]
+        else:
+            s = gen_scale(rng, 5, nmin=0 if rng.random() < 0.1 else 1, zero=0.7)
+            steps = [gen_step(rng, rng.choice(STEP_KINDS)) if rng.random() < 0.8 else rounding_step(rng)
+                     for _ in range(rng.randint(1, 4))]
+        c = {"op": "prog", "s": s, "probe": gen_scale(rng, 3, nmin=0 if rng.random() < 0.15 else 1),
+             "steps": steps, "ints": rng.random() < 0.3}
+        if not prog_ok(c):
+            continue
+        if kind < 2 and not has_coinciding(c):
+            continue
+        # bases: on and around the thresholds of every state
+        ths = sorted({t for state in prog_thresholds(c) for t in state})
+        fake = [[enc(t), "0"] for t in ths]
+        c["bases"] = bases_for(rng, [fake], nmax=6)
+        cases.append(c)
+        made += 1
 
 
 def shrink(c, still_fails):
     """Drop bases / gross amounts, then brackets, while the oracle still fails."""
     cur = json.loads(json.dumps(c))
+
+    def genuine(cc):
+        """fails with something else than the open finding F34"""
+        oo = guarded(run_impl, cc)
+        m = oracle(cc, oo)
+        return bool(m) and known(cc, oo, m) is None
+
+    keep_genuine = genuine(cur)          # do not shrink a new failure into the known one
     changed = True
     while changed:
         changed = False
-        for fld in ("bases", "gross", "s", "s1", "s2"):
+        for fld in ("steps", "bases", "gross", "s", "s1", "s2", "probe"):
             k = 0
             while isinstance(cur.get(fld), list) and k < len(cur[fld]) and len(cur[fld]) > (1 if fld in ("bases", "gross") else 0):
                 c2 = dict(cur)
                 c2[fld] = cur[fld][:k] + cur[fld][k + 1:]
-                if still_fails(c2):
+                if c2.get("op") == "prog" and not prog_ok(c2):
+                    k += 1
+                    continue
+                if still_fails(c2) and (not keep_genuine or genuine(c2)):
                     cur = c2
                     changed = True
                 else:
